@@ -83,3 +83,57 @@ Proof.
   split; [reflexivity|]. eexists. eexists. split; [vm_compute; reflexivity|].
   split; reflexivity.
 Qed.
+
+(* the shell opens a script with a limit of 10: the file is opened at 3, cannot
+   be moved to 10 or above, and 3 is closed again; with a limit of 11 it ends
+   up at 10 *)
+Definition ex_tight (l : N) : kst :=
+  mkK (k_tab ex_free) (Some l) [] (k_next ex_free) (k_ofd ex_free) (k_fs ex_free).
+
+Example own_descriptor_cases_satisfiable :
+  (exists s', open_internal (ex_tight 10) (PKey 3) = (s', None) /\ k_tab s' = k_tab (ex_tight 10))
+  /\ (exists s', open_internal (ex_tight 11) (PKey 3) = (s', Some 10%N))
+  /\ (exists s1 s', k_open_cx (ex_tight 10) (PKey 3) = (s1, Ok 3%N)
+                    /\ move_fd_internal s1 3 = (s', Err EMFILE) /\ lookup (k_tab s') 3%N = None).
+Proof.
+  split; [|split].
+  - eexists. split; vm_compute; reflexivity.
+  - eexists. vm_compute. reflexivity.
+  - eexists. eexists. split; [vm_compute; reflexivity|]. split; vm_compute; reflexivity.
+Qed.
+
+(* exec with an operand that cannot be invoked, in an interactive shell: the
+   shell goes on with the redirection in place *)
+Example exec_operand_case_satisfiable :
+  exists s' s1 stack,
+    perform_redirs false ex_free [mkRedir 7 (BFile FileOut (PKey 4))]%N [] = (s1, stack, true)
+    /\ run_cmd false ex_free (mkCmd (KExecFail true) [mkRedir 7 (BFile FileOut (PKey 4))]%N) = (s', None, false)
+    /\ lookup (k_tab s') 7%N <> None /\ lookup (k_tab ex_free) 7%N = None.
+Proof.
+  eexists. eexists. eexists. split; [vm_compute; reflexivity|].
+  split; [vm_compute; reflexivity|]. split; [vm_compute; discriminate|reflexivity].
+Qed.
+
+(* a script read with `command .` under redirections, whose body holds a command
+   with a command substitution *)
+Definition ex_dot : item :=
+  IDot true [mkRedir 0 (BFile FileIn (PKey 3))]%N (PKey 4)
+    [ISubst (mkCmd KRegular [mkRedir 5 (BHere [104; 10])]%N)].
+
+Example dot_case_satisfiable :
+  transient ex_dot = true
+  /\ (exists steps sh', run_item (mkSh ex_free false) ex_dot = (steps, sh', false)
+                        /\ length steps = 4%nat /\ k_tab (sh_k sh') = k_tab ex_free)
+  /\ (exists steps sh', run_item (mkSh (ex_tight 11) false) ex_dot = (steps, sh', false)
+                        /\ length steps = 1%nat /\ k_tab (sh_k sh') = k_tab ex_free).
+Proof.
+  split; [reflexivity|]. split; eexists; eexists; (split; [vm_compute; reflexivity|]); split; reflexivity.
+Qed.
+
+(* three commands, descriptors 0 1 2 (and 5) open, a limit of 6: the second pipe
+   cannot be made; the parent's table is nevertheless the one before *)
+Example pipeline_failure_case_satisfiable :
+  exists s' children,
+    run_pipeline (ex_tight 6) 3 = (s', children, false)
+    /\ length children = 1%nat /\ k_tab s' = k_tab (ex_tight 6).
+Proof. eexists. eexists. split; [vm_compute; reflexivity|]. split; reflexivity. Qed.
